@@ -254,6 +254,7 @@ def explore(ctx):
     ctx.exhaustive = False
     ctx.notes["lattice"] = {"dims": {k: len(v) for k, v in dims.items()}, "bound": bound, "configs": len(cases)}
     res = ctx.run(MOD, "run_case", cases, part=f"lattice<={bound}", transitions=edges, chunksize=2)
+    ctx.run_under(MOD, "run_case", cases[:1] + [c for c in cases if c["system"] == "monoclinic" and c["lattice"] != "none"][:2], ("-O",))
     import itertools
     seqs = [list(p) for p in itertools.permutations(VARIANTS, 2)] + ([list(p) for p in itertools.permutations(VARIANTS, 3)] if not ctx.quick else
                                                                       [["cubic", "none", "cubic"], ["none", "hex", "none"], ["ortho-spline", "ortho", "none"]])
